@@ -64,6 +64,13 @@ class SumKroneckerLinearOperator(SumLinearOperator):
 
         return res
 
+    def _mul_constant(
+        self: Float[LinearOperator, "*batch M N"], other: Union[float, torch.Tensor]
+    ) -> Float[LinearOperator, "*batch M N"]:
+        # constant multiples of the summands are no longer plain Kronecker products, so the result
+        # cannot use the Kronecker-sum formulation of this class
+        return SumLinearOperator(*[lt._mul_constant(other) for lt in self.linear_ops])
+
     def _logdet(self: Float[LinearOperator, "*batch M N"]) -> Float[Tensor, " *batch"]:
         inner_mat = self._sum_formulation
         lt2_logdet = self.linear_ops[1].logdet()
